@@ -7,4 +7,5 @@ for p in "$@"; do
   ./check $p quick 2>&1 | grep -v "^WARNING" | cut -c1-400
 done
 git -C /repo checkout -- .
+/verif/bin/xlate /repo /verif/coq/Gen >/dev/null 2>&1
 git -C /repo status --short | head -3
